@@ -44,7 +44,7 @@ theorem convert_conserves (c : Cond) (o : OutFile) :
 /-- F: the merge functions the model mirrors are unchanged -/
 theorem merge_functions_unchanged :
     (Ach.Gen.pipeHashes.filter (fun p => ["outFile.add", "convertToFiles", "pickOutFile", "findOutBatch", "MergeFilesWith"].contains p.1)) =
-      [("outFile.add", 5245696207882072061), ("convertToFiles", 15561074837895817077),
+      [("outFile.add", 9671880382220691324), ("convertToFiles", 15561074837895817077),
        ("pickOutFile", 2740749275185348098), ("findOutBatch", 13694440567599775285), ("MergeFilesWith", 6631182081924706875)] := by decide +kernel
 
 /-- non-vacuity: two files on one route with a colliding trace under the same header: three triples in, three out,
